@@ -243,6 +243,17 @@ def observe(st, full):
         o['utxos2'] = utxos_view(w3.utxos())
         o['kb2'] = kb_view({k.id: k.balance for k in w3.keys()})
         o['txs2'] = txs_view(st, w3, True)
+        # re-serialisation of every reloaded transaction object (the stored blob alone would hide a lossy reload)
+        rs = []
+        for txid in sorted(st.txids):
+            t = w3.transaction(txid)
+            if t is not None:
+                try:
+                    rs.append('%s~%s~%s' % (txid, t.raw_hex(), '/'.join(i.witness_type or '-' for i in t.inputs)))
+                except Exception as e:
+                    rs.append('%s~ERR %s~-' % (txid, type(e).__name__))
+        o['reser'] = ','.join(rs)
+        o['pushed'] = ','.join('%s~%s' % (k, v) for k, v in sorted(getattr(st, 'pushed', {}).items()))
     del w3
     observe_groups(st, w, o)
     return o
@@ -268,6 +279,14 @@ def store_op(st, t, sent, mops):
     """The transaction row is filed where the library files it (t.account_id)."""
     ins, outs, raw = tx_tokens(st, t)
     st.txids.add(t.txid)
+    if sent:
+        # the bytes that actually went to the network (send() pushes raw_hex() of the object as it is then)
+        if not hasattr(st, 'pushed'):
+            st.pushed = {}
+        try:
+            st.pushed.setdefault(t.txid, t.raw_hex())
+        except Exception:
+            pass
     mops.append('T:%d:%s:%d:%d:%d:%s:%s:%s' % (1 if sent else 0, t.txid, nwid(st, t.network.name), t.account_id,
                                                t.confirmations or 0, ins, outs, raw))
 
